@@ -6,7 +6,7 @@ TRUSTED = {
                   'stream of every piece is re-checked against the source (see functions_under_contract[].edits)',
     'sequential': 'the ghost store model is sequential: no claim about interleavings of threads/tasks follows from it',
     'scru128': 'scru128: as_bytes/to_bytes are the big-endian bytes of to_u128, from/from_bytes invert them, timestamp() == id >> 80, '
-               'Ord/Eq are those of the 128-bit value (checked on the real crate by Kani unit k1); scru128::new() returns an id above '
+               'Ord/Eq are those of the 128-bit value -- assumed by the Verus units and CHECKED on the real crate by the Kani unit k1 (complete harnesses; part of the C05 and C08 checks); scru128::new() returns an id above '
                'every id it returned before (trusted)',
     'std_vec': 'std (assumed specs): Vec::extend(&[u8]) appends the bytes, [T]::contains, [T]::to_vec, String::as_bytes == UTF-8 '
                'encoding, <[u8;16]>::try_from(&[u8]) succeeds iff the length is 16, str::len <= isize::MAX, usize is 64-bit, '
@@ -99,8 +99,8 @@ prop('C05',
            'write and delete exactly the three entries of a frame; lemmas L1-L6 make prefix and range scans exact for prefix-related '
            'topics and adjacent contexts.',
      technique=TECH,
-     units=['verus:keys', 'verus:keys_max', 'verus:store_ops', 'verus:lockstep'],
-     obligations=['lemma.L1.*', 'lemma.L3.*', 'lemma.L4.*', 'lemma.L7.*', 'lemma.L8.*', 'keys.prefix.*', 'keys.from_frame.*', 'keys.id_from_key.*', 'keys.ctx_key.*', 'keys.range_end.*',
+     units=['verus:keys', 'verus:keys_max', 'verus:store_ops', 'verus:lockstep', 'kani:k1'],
+     obligations=['k1.*', 'lemma.L1.*', 'lemma.L3.*', 'lemma.L4.*', 'lemma.L7.*', 'lemma.L8.*', 'keys.prefix.*', 'keys.from_frame.*', 'keys.id_from_key.*', 'keys.ctx_key.*', 'keys.range_end.*',
                   'keys.iter_ctx.*', 'keys.iter_all.*', 'keys.*.body', 'store.head.*', 'store.iter_frames.*',
                   'store.get.*', 'store.insert_frame.three_entries', 'store.insert_frame.nul_*', 'store.remove.three_tombstones',
                   'store.remove.absent_noop', 'store.remove.nothing_else_touched', 'store.append.reject*', 'store.append.stored',
@@ -134,8 +134,8 @@ prop('C08',
            'queues CheckHeadTTL only for a stored head:N frame with that context, topic and N; remove deletes only the three entries '
            'of the frame it read.',
      technique=TECH,
-     units=['verus:expiry', 'verus:store_ops', 'verus:keys'],
-     obligations=['lemma.L1.*', 'lemma.L4.*', 'expiry.is_expired.*', 'expiry.is_expired.body', 'store.read_sync.*', 'store.gc_head.*', 'store.append.store_then_broadcast',
+     units=['verus:expiry', 'verus:store_ops', 'verus:keys', 'kani:k1'],
+     obligations=['k1.timestamp_is_top_48_bits', 'lemma.L1.*', 'lemma.L4.*', 'expiry.is_expired.*', 'expiry.is_expired.body', 'store.read_sync.*', 'store.gc_head.*', 'store.append.store_then_broadcast',
                   'store.append.ephemeral_not_stored', 'store.remove.three_tombstones', 'store.remove.nothing_else_touched',
                   'keys.prefix.layout', 'keys.from_frame.layout', 'keys.id_from_key.last16',
                   'store_ops.gc_head_arm.body', 'store_ops.read_sync_filter.body'],
